@@ -1252,3 +1252,39 @@ Proof.
     + exact (proj1 (roundtrip_full_cfg fuel t it Hwf Hty Hff fuel v' Hdec)).
     + rewrite Hname. reflexivity.
 Qed.
+
+(* ================================================================================================ *)
+(* the metadata coder is the identity on string maps (loaded value, not only its print)             *)
+(* ================================================================================================ *)
+Lemma metadata_coder_identity r es : all_strings es ->
+  call_unmarshal_fn "configToMetadata" (call_marshal_fn "metadataToConfig" (VRef r es)) = VRef 0 es.
+Proof.
+  intros H. destruct es as [|e es]; [reflexivity|].
+  change (call_marshal_fn "metadataToConfig" (VRef r (e :: es))) with (VRef 0 [("", VStruct [VStruct [VRef 0 (map any_of_str (e :: es))]])]).
+  change (call_unmarshal_fn "configToMetadata" (VRef 0 [("", VStruct [VStruct [VRef 0 (map any_of_str (e :: es))]])]))
+    with (VRef 0 (flat_map (fun kv : string * val => match snd kv with VJson (JStr s) => [(fst kv, VStr s)] | _ => [] end) (map any_of_str (e :: es)))).
+  rewrite (config_to_metadata_of_strings (e :: es) H). reflexivity.
+Qed.
+
+(* ... through the text: dump the metadata of a host / route / weighted cluster, load the text, convert back *)
+Theorem metadata_text_identity t : is_meta_slot t = true -> forall r e es, all_strings (e :: es) ->
+  forall fuel fuel' x,
+    fuel_free (encode cfg_structs fuel t (call_marshal_fn "metadataToConfig" (VRef r (e :: es)))) = true ->
+    decode cfg_structs fuel' t (encode cfg_structs fuel t (call_marshal_fn "metadataToConfig" (VRef r (e :: es)))) = Some x ->
+    call_unmarshal_fn "configToMetadata" x = VRef 0 (e :: es).
+Proof.
+  intros Ht r e es Hs fuel fuel' x Hff Hd.
+  rewrite (meta_rt_cfg t Ht r e es Hs fuel fuel' x Hff Hd). apply metadata_coder_identity. exact Hs.
+Qed.
+
+(* non-vacuity, and what the model does with members that are not strings: they are not metadata *)
+Lemma metadata_examples :
+  call_unmarshal_fn "configToMetadata" (call_marshal_fn "metadataToConfig" (VRef 7 [("version", VStr "1.10"); ("zeros", VStr "007"); ("t", VStr "true"); ("e", VStr "")]))
+    = VRef 0 [("version", VStr "1.10"); ("zeros", VStr "007"); ("t", VStr "true"); ("e", VStr "")] /\
+  encode cfg_structs 8 (TPtr (TNamed "v2.MetadataConfig")) (call_marshal_fn "metadataToConfig" (VRef 7 [("version", VStr "1.10"); ("t", VStr "true")]))
+    = JObj [("filter_metadata", JObj [("mosn.lb", JObj [("version", JStr "1.10"); ("t", JStr "true")])])] /\
+  option_map (call_unmarshal_fn "configToMetadata")
+    (decode cfg_structs 8 (TPtr (TNamed "v2.MetadataConfig"))
+       (JObj [("filter_metadata", JObj [("mosn.lb", JObj [("version", JStr "1.10"); ("n", JNum "2"); ("b", JBool true); ("z", JNull)])])]))
+    = Some (VRef 0 [("version", VStr "1.10")]).
+Proof. split; [reflexivity|]. split; vm_compute; reflexivity. Qed.
